@@ -81,7 +81,7 @@ def signature(rej):
 
 def run(ctx):
     E.build_harness(ctx)
-    cfgs = ["MC_RtmpChunk_q.cfg", "MC_RtmpChunk_agg.cfg"]
+    cfgs = ["MC_RtmpChunk_q.cfg", "MC_RtmpChunk_agg.cfg", "MC_RtmpChunk_f3.cfg"]
     if not ctx.quick:
         cfgs.append("MC_RtmpChunk_t.cfg")
     init_cs_of = {"MC_RtmpChunk_agg.cfg": 16}
